@@ -205,12 +205,19 @@ def malformed(ctx, drv, rng):
         "missing arrival on first row": lambda r: r[0].__setitem__(1, ""),
         "priority on a later row": lambda r: r[1].__setitem__(2, "INTERACTIVE"),
         "arrival on a later row": lambda r: r[1].__setitem__(1, "0.5"),
+        "arrival 0 on a later row": lambda r: r[1].__setitem__(1, "0"),
+        "arrival 0.0 on a later row": lambda r: r[1].__setitem__(1, "0.0"),
         "unknown priority": lambda r: r[2].__setitem__(2, "URGENT"),
         "unknown scaling law": lambda r: r[1].__setitem__(6, "cubic"),
         "undefined parent": lambda r: r[1].__setitem__(4, "op7"),
         "parent defined only later": lambda r: (r[0].__setitem__(4, "op2")),
     }
-    for name, f in list(breaches.items()) + [("well-formed", lambda r: None)]:
+    wellformed = {
+        "well-formed": lambda r: None,
+        "well-formed (first arrival 0)": lambda r: r[0].__setitem__(1, "0"),
+        "well-formed (first arrival 0.0, memory 0)": lambda r: (r[0].__setitem__(1, "0.0"), r[0].__setitem__(7, "0")),
+    }
+    for name, f in list(breaches.items()) + list(wellformed.items()):
         rows = [list(x) for x in base]
         f(rows)
         text = ",".join(COLS) + "\n" + "".join(",".join(r) + "\n" for r in rows)
@@ -223,9 +230,9 @@ def malformed(ctx, drv, rng):
         m = drv.send("csv-read " + json.dumps(canon_rows(text)))
         ctx.sit("malformed_files")
         model_refuses = "error" in m
-        if name != "well-formed" and raised is None:
+        if not name.startswith("well-formed") and raised is None:
             viol(ctx, "malformed-accepted", f"a file with {name} is loaded instead of being refused", {"file": text})
-        elif name == "well-formed" and raised:
+        elif name.startswith("well-formed") and raised:
             viol(ctx, "wellformed-refused", f"a well-formed file is refused: {raised}", {"file": text})
         elif model_refuses != (raised is not None) and len(ctx.unproved) < 3:
             ctx.unproved.append({"kind": "correspondence", "component": "csv reader validation", "breach": name, "impl_raises": raised, "model": m})
